@@ -14,3 +14,7 @@ fp("dask/dataframe/dask_expr/_rolling.py", "RollingReduction._lower", "RollingRe
 # C36
 fp("dask/dataframe/dask_expr/_expr.py", "Blockwise._task", "Blockwise._blockwise_arg", "Blockwise._broadcast_dep",
    "Blockwise._divisions", "Filter", "Projection", "Assign", "are_co_aligned", "MaybeAlignPartitions._lower")
+
+# C37
+fp("dask/dataframe/dask_expr/_reductions.py", "TreeReduce._layer", "TreeReduce.split_every", "ApplyConcatApply._lower",
+   "Reduction.chunk", "Reduction.combine", "Reduction.aggregate", "Sum", "Max", "Count", "Mean._lower")
